@@ -1,0 +1,40 @@
+// Copyright Suneido Software Corp. All rights reserved.
+// Governed by the MIT license found in the LICENSE file.
+
+//go:build verif
+
+package btree
+
+// Hooks for the external verification harness (build tag verif).
+// They only observe; they do not change behaviour.
+
+// VerifMaxNodeSize is the documented limit of the size of a node in bytes.
+const VerifMaxNodeSize = maxNodeSize
+
+// VerifSplitCount returns the current maximum number of entries of a node.
+func VerifSplitCount() int {
+	return splitCount
+}
+
+// VerifWalk calls fn for every node of the tree (root first, depth first,
+// left to right). level 0 is the root; leaf tells whether the node is a
+// leaf; size is the stored size of the node in bytes (without checksum);
+// nkeys is the number of keys (separators for a tree node) and noffs the
+// number of offsets (children resp. records); prefixLen is the length of the
+// stored shared prefix (leaves only).
+func (bt *btree) VerifWalk(fn func(level int, leaf bool, size, nkeys, noffs, prefixLen int)) {
+	var walk func(level int, off uint64)
+	walk = func(level int, off uint64) {
+		if level < bt.treeLevels {
+			nd := bt.readTree(off)
+			fn(level, false, nd.size(), nd.nkeys(), nd.noffs(), 0)
+			for i := range nd.noffs() {
+				walk(level+1, nd.offset(i))
+			}
+		} else {
+			nd := bt.readLeaf(off)
+			fn(level, true, nd.size(), nd.nkeys(), nd.noffs(), len(nd.prefix()))
+		}
+	}
+	walk(0, bt.root)
+}
